@@ -683,6 +683,34 @@ def check_emission(ctx, repo):
         else:
             ctx.ok(c, fn, operators=len(binary_ops))
 
+    # a constant that is NOT a number: its str() is written into the source, which is lossy (a MultiVector prints three significant
+    # digits and omits zero coefficients, an ndarray prints as a list) - the property allows raising, never another value
+    q = f"{TR}.binary_operator"
+    fn = ctx.func(q)
+    for label, const in (("a scalar multivector constant", Obj("MultiVector", {"fmt": "0.333", "_keys": (0,), "_values": [1 / 3]}, {"keys": lambda: (0,)})),
+                         ("an ndarray constant", Obj("ndarray", {"fmt": "[2]"}))):
+        c = f"{q}#{label}"
+        bad = []
+        for requested in binary_ops:
+            calls.clear()
+            alg = algebra()
+            a = rec("EXPR_A", "KEYS_A", alg)
+            it = make_interp(repo)
+            try:
+                out = it.run(q, [a, const, requested])
+            except NoValue as exc:
+                raise Unknown(c, str(exc), fn)
+            if out[0] == "raise":
+                continue
+            expr, keys = result_fields(out[1])
+            if isinstance(expr, str) and str(const) in expr.replace("EXPR_A", ""):
+                bad.append(f"{requested}: records {expr!r}")
+        if bad:
+            ctx.violation(c, f"the printed form {str(const)!r} of {label} is written into the generated source ({bad[0]}; {len(bad)} operators): "
+                             f"printing is lossy, so the registered function silently computes with another value than the plain function", fn)
+        else:
+            ctx.ok(c, fn, operators=len(binary_ops))
+
     q = f"{TR}.unary_operator"
     fn = ctx.func(q)
     problems = []
@@ -712,11 +740,13 @@ def check_emission(ctx, repo):
         ctx.ok(q, fn, operators=len(unary_ops))
 
 
-@rule("C11.emission-pairing", props=["C11", "C03", "C16"], min_instances=5, mutants=[
+@rule("C11.emission-pairing", props=["C11", "C03", "C16"], min_instances=7, mutants=[
     ("the number 1 is taken for the identity of every operator", ("taperecorder", "            # Assume scalar\n", "            # Assume scalar\n            if other == 1:\n                return self\n")),
     ("products with a plain number are recorded as the geometric product", ("taperecorder", "            # Assume scalar\n", "            if operator in ('op', 'ip', 'lc', 'rc', 'sp', 'acp'):\n                operator = 'gp'\n")),
     ("emit operands in swapped order", ("taperecorder", "expr = f'{func.__name__}({self.expr}, {other.expr})'", "expr = f'{func.__name__}({other.expr}, {self.expr})'")),
     ("swapped lookup key", ("taperecorder", "getattr(self.algebra, operator)[self.keys(), other.keys()]", "getattr(self.algebra, operator)[other.keys(), self.keys()]")),
+    ("whatever is no recorder is pasted as text (F33)", ("taperecorder", "            if not isinstance(other, Number):\n", "            if False:\n")),
+    ("only multivectors are refused, arrays are pasted as text", ("taperecorder", "            if not isinstance(other, Number):\n", "            if hasattr(other, 'algebra'):\n")),
     ("the number is written with six significant digits", ("taperecorder", "expr = f'{func.__name__}({self.expr}, ({other},))'", "expr = f'{func.__name__}({self.expr}, ({other:g},))'")),
     ("scalar emitted bare", ("taperecorder", "expr = f'{func.__name__}({self.expr}, ({other},))'", "expr = f'{func.__name__}({self.expr}, {other})'")),
 ])
@@ -836,9 +866,11 @@ def do_compile_rule(ctx):
 
 
 # --------------------------------------------------------------------------- nested registered calls, registration
-@rule("C11.nested-registry", props=["C11"], min_instances=3, mutants=[
-    ("nested call emits its arguments reversed", ("operator_dict", "            expr = f\"{func.__name__}({', '.join(mv.expr for mv in mvs)})\"", "            expr = f\"{func.__name__}({', '.join(mv.expr for mv in reversed(mvs))})\"")),
-    ("nested call records the input keys", ("operator_dict", "            return TapeRecorder(self.algebra, keys=keys_out, expr=expr)", "            return TapeRecorder(self.algebra, keys=keys_in[0], expr=expr)")),
+@rule("C11.nested-registry", props=["C11"], min_instances=7, mutants=[
+    ("a symbolically registered function does not know the recorders (F34)", ("operator_dict", "        if mvs and all(isinstance(mv, TapeRecorder) for mv in mvs):\n            # Called from within", "        if False:\n            # Called from within")),
+    ("a symbolically registered function records its arguments reversed", ("operator_dict", "            expr = f\"{func.__name__}({', '.join(mv.expr for mv in mvs)})\"\n            return TapeRecorder(self.algebra, keys=keys_out, expr=expr)\n\n        if len(mvs) == 2:", "            expr = f\"{func.__name__}({', '.join(mv.expr for mv in mvs[::-1])})\"\n            return TapeRecorder(self.algebra, keys=keys_out, expr=expr)\n\n        if len(mvs) == 2:")),
+    ("nested call emits its arguments reversed", ("operator_dict", "            keys_out, func = self[keys_in]\n            expr = f\"{func.__name__}({', '.join(mv.expr for mv in mvs)})\"", "            keys_out, func = self[keys_in]\n            expr = f\"{func.__name__}({', '.join(mv.expr for mv in reversed(mvs))})\"")),
+    ("nested call records the input keys", ("operator_dict", "            return TapeRecorder(self.algebra, keys=keys_out, expr=expr)\n\n        # Make sure all inputs are multivectors. If an input is not, assume its scalar.\n        mvs = [mv if isinstance(mv, MultiVector) else MultiVector.fromkeysvalues(self.algebra, (0,), (mv,))\n               for mv in mvs]\n        if any((mvs[0].algebra != mv.algebra) for mv in mvs[1:]):\n            raise AlgebraError(\"Cannot multiply elements of different algebra's.\")\n\n        keys_in = tuple(mv.keys() for mv in mvs)\n        values_in = tuple(mv.values() for mv in mvs)\n        keys_out, func = self[keys_in]\n\n        if not", "            return TapeRecorder(self.algebra, keys=keys_in[0], expr=expr)\n\n        # Make sure all inputs are multivectors. If an input is not, assume its scalar.\n        mvs = [mv if isinstance(mv, MultiVector) else MultiVector.fromkeysvalues(self.algebra, (0,), (mv,))\n               for mv in mvs]\n        if any((mvs[0].algebra != mv.algebra) for mv in mvs[1:]):\n            raise AlgebraError(\"Cannot multiply elements of different algebra's.\")\n\n        keys_in = tuple(mv.keys() for mv in mvs)\n        values_in = tuple(mv.values() for mv in mvs)\n        keys_out, func = self[keys_in]\n\n        if not")),
     ("symbolic=True registers a non-symbolic registry", ("algebra", "            if not symbolic:\n                self.registry[expr] = Registry(name, codegen=expr, algebra=self)", "            if True:\n                self.registry[expr] = Registry(name, codegen=expr, algebra=self)")),
 ])
 def nested_registry(ctx):
@@ -847,48 +879,60 @@ def nested_registry(ctx):
     OperatorDict for symbolic=True) for the given function under its own name."""
     from ..absint import PyFunc
     repo = ctx.repo
-    q = "operator_dict.Registry.__call__"
-    fn = ctx.func(q)
-    looked = []
-    func = Obj("function", {"__name__": "inner_7_x_2_5", "fmt": "<fn>"})
+    # both kinds of registered function (Registry for register(f), OperatorDict for register(symbolic=True)(f)), two and three arguments
+    for cls_name, nargs in (("Registry", 2), ("OperatorDict", 2), ("OperatorDict", 3), ("Registry", 1), ("OperatorDict", 1)):
+        q = f"operator_dict.{cls_name}.__call__"
+        fn = ctx.func(q)
+        c = q + "#recorders" + ("" if nargs == 2 else f", {nargs} argument{'s' if nargs > 1 else ''}")
+        looked = []
+        func = Obj("function", {"__name__": "inner_7_x_2_5", "fmt": "<fn>"})
 
-    def getitem(key):
-        looked.append(tuple(k.attrs.get("fmt") if isinstance(k, Obj) else k for k in key))
-        return (Obj("token", {"fmt": "KEYS_OUT"}), func)
-    alg = Obj("algebra", {"wrapper": None, "numspace": {}})
-    me = Obj("Registry", {"algebra": alg, "name": "inner"}, getitem=getitem)
+        def getitem(key, looked=looked, func=func):
+            looked.append(tuple(k.attrs.get("fmt") if isinstance(k, Obj) else k for k in key))
+            return (Obj("token", {"fmt": "KEYS_OUT"}), func)
+        alg = Obj("algebra", {"wrapper": None, "numspace": {}})
+        me = Obj(cls_name, {"algebra": alg, "name": "inner"}, getitem=getitem)
 
-    def rec(expr, kname):
-        k = Obj("token", {"fmt": kname})
-        return Obj("TapeRecorder", {"algebra": alg, "expr": expr, "_keys": k}, {"keys": lambda: k})
-    it = make_interp(repo)
-    it.instance_classes["Registry"] = "operator_dict.Registry"
-    created = {}
-    prev = it.class_call_hook
+        def rec(expr, kname, alg=alg):
+            k = Obj("token", {"fmt": kname})
+            return Obj("TapeRecorder", {"algebra": alg, "expr": expr, "_keys": k}, {"keys": lambda: k})
+        it = make_interp(repo)
+        it.instance_classes[cls_name] = f"operator_dict.{cls_name}"
+        created = {}
+        prev = it.class_call_hook
 
-    def cch(name, args, kwargs):
-        if name == "TapeRecorder":
-            vals = dict(zip(["algebra", "expr", "keys"], args))
-            vals.update(kwargs)
-            created.update(vals)
-            return Obj("TapeRecorder", {"algebra": vals.get("algebra"), "expr": vals.get("expr"), "_keys": vals.get("keys")})
-        return prev(name, args, kwargs)
-    it.class_call_hook = cch
-    try:
-        out = it.run(q, [me, rec("EXPR_A", "KEYS_A"), rec("EXPR_B", "KEYS_B")])
-    except NoValue as exc:
-        raise Unknown(q, str(exc), fn)
-    problems = []
-    if looked != [("KEYS_A", "KEYS_B")]:
-        problems.append(f"cache lookups {looked}, expected one with (KEYS_A, KEYS_B)")
-    if not isinstance(created.get("expr"), str) or created["expr"].replace(" ", "") != "inner_7_x_2_5(EXPR_A,EXPR_B)":
-        problems.append(f"recorded expression {created.get('expr')!r}, expected 'inner_7_x_2_5(EXPR_A, EXPR_B)'")
-    if not (isinstance(created.get("keys"), Obj) and created["keys"].attrs.get("fmt") == "KEYS_OUT"):
-        problems.append("recorded keys are not the keys_out of that cache entry")
-    if problems:
-        ctx.violation(q + "#recorders", "; ".join(problems), fn)
-    else:
-        ctx.ok(q + "#recorders", fn, emitted=created["expr"])
+        def cch(name, args, kwargs, created=created, prev=prev):
+            if name == "TapeRecorder":
+                vals = dict(zip(["algebra", "expr", "keys"], args))
+                vals.update(kwargs)
+                created.update(vals)
+                return Obj("TapeRecorder", {"algebra": vals.get("algebra"), "expr": vals.get("expr"), "_keys": vals.get("keys")})
+            return prev(name, args, kwargs)
+        it.class_call_hook = cch
+        letters = "ABC"[:nargs]
+        try:
+            out = it.run(q, [me] + [rec(f"EXPR_{x}", f"KEYS_{x}") for x in letters])
+        except NoValue as exc:
+            if cls_name == "Registry":
+                raise Unknown(c, str(exc), fn)
+            out = ("gap", str(exc))
+        problems = []
+        if out[0] == "raise" or (out[0] == "gap" and not created):
+            problems.append(f"the call with the recorders of an enclosing registered function {'raises ' + str(out[1]) if out[0] == 'raise' else 'is not recorded (' + str(out[1])[:80] + ')'}: "
+                            f"a function registered with {'symbolic=True' if cls_name == 'OperatorDict' else 'register(f)'} cannot be called inside a registered function")
+        else:
+            want_keys = tuple(f"KEYS_{x}" for x in letters)
+            want_expr = "inner_7_x_2_5(" + ",".join(f"EXPR_{x}" for x in letters) + ")"
+            if looked != [want_keys]:
+                problems.append(f"cache lookups {looked}, expected one with {want_keys}")
+            if not isinstance(created.get("expr"), str) or created["expr"].replace(" ", "") != want_expr:
+                problems.append(f"recorded expression {created.get('expr')!r}, expected {want_expr!r}")
+            if not (isinstance(created.get("keys"), Obj) and created["keys"].attrs.get("fmt") == "KEYS_OUT"):
+                problems.append("recorded keys are not the keys_out of that cache entry")
+        if problems:
+            ctx.violation(c, "; ".join(problems), fn)
+        else:
+            ctx.ok(c, fn, emitted=created["expr"])
     # Algebra.register
     q = "algebra.Algebra.register"
     fn = ctx.func(q)
